@@ -312,6 +312,14 @@ class World:
         if details:
             opts["caller"] = 4242
             opts["caller_authid"] = "joe"
+        if self.limit:
+            # the router respects the limit the callee's transport announced / enforces on what it receives: an INVOCATION above it is not sent
+            # (on WebSocket maxMessagePayloadSize also governs the receive side: an over-limit INVOCATION is rightly answered with 1009)
+            from harness import wamptx
+            probe = [68, iid, self.reg_ids[k], opts] + ([list(args)] if (args or kwargs) else []) + ([dict(kwargs)] if kwargs else [])
+            if len(wamptx.dumps(self.tx.ser, probe)) > self.limit - 16:
+                self.next_inv -= 1
+                return
         inv = {"id": iid, "proc": k, "beh": beh, "rp": rp, "terminal": [], "progress": [], "args": list(args), "kwargs": dict(kwargs), "state": "running"}
         if with_interrupt and (self.c.get("styles") or ["func"] * 3)[k] == "func-checked":
             inv["cancelled_at_once"] = True
